@@ -1,15 +1,15 @@
 #!/bin/sh
-# usage: tools/seed_eval_all.sh [tier] > report
+# usage: tools/seed_eval_all.sh [tier] [glob-of-seed-dirs] > report
 # For every kept seeded change under /verif/seeded: make a scratch worktree of /repo under /tmp, apply the patch,
 # run the check of the seed's property against it (evidence and replays go to a temp dir), remove the worktree.
 # Prints one line per seed; a seed counts as caught when the check exits 1 with a VIOLATION line.
 tier="${1:-quick}"
 cd /verif
-for d in seeded/*/; do
+for d in seeded/${2:-*}/; do
   n=$(basename "$d")
   [ -f "$d/patch.diff" ] || continue
   prop=$(python3 -c "import json;print(json.load(open('$d/meta.json'))['property'])")
-  chk=$(python3 -c "import json;m=json.load(open('$d/meta.json'));print(m.get('caught_by',{}).get('check',m['property']))")
+  chk=$(python3 -c "import json;m=json.load(open('$d/meta.json'));print(m.get('caught_by',{}).get('check',m['property']).split()[0])")
   wt=$(mktemp -d /tmp/seedwt.XXXXXX); rmdir "$wt"
   git -C /repo worktree add -q --detach "$wt" HEAD || { echo "$n worktree-failed"; continue; }
   if ! git -C "$wt" apply "/verif/$d/patch.diff"; then echo "$n patch-does-not-apply"; git -C /repo worktree remove --force "$wt"; continue; fi
